@@ -48,12 +48,80 @@ PROPS = {
     ),
 }
 
+
+
+def _c15_post(results):
+    """Monitor validity: the alloc build must be seen allocating on big-integer inputs."""
+    out = []
+    seen = False
+    for (cfg, prof), r in results.items():
+        if cfg in ("A", "CA", "NA", "NCA"):
+            seen = True
+            if r.get("counters", {}).get("calls_that_allocated", 0) == 0:
+                out.append(f"allocation monitor is blind: configuration {cfg} (alloc) showed no allocating call")
+    if not seen:
+        out.append("allocation monitor validity run (alloc configuration) missing")
+    return out
+
+
+PROPS.update({
+    "C03": dict(
+        sub="c03", cfgs=["D", "C"], rule="every finite non-negative float of the stated sets is rendered three ways (shortest and 9/17 significant digits by core::fmt, full exact expansion by the harness' naturals) and parsed back by the real code; bits must be identical. Non-trivial: the input leaves the plain fast path.",
+        exhaustive_over={"quick": "f64: 2047 binades x ~220 patterns; f32: 255 binades x ~150 patterns and four complete binades (2^25 values); x 3 renderings",
+                         "thorough": "f32: ALL 2^31-2^23 finite non-negative values x 3 renderings; f64: 2047 binades x ~4200 patterns + complete low-20-bit sweeps in 4 binades"},
+        assumptions=ASSUME_EXACT + ["core::fmt renders shortest / fixed-precision digits correctly (cross-checked by the exact oracle on every case judged in full mode)"]),
+    "C04": dict(
+        sub="c04", cfgs=FIVE, profiles=["release", "dbg"], hard=True,
+        rule="every member of the C01/C02/C06/C07 families plus 10^4..10^6-digit shapes x exponent classes is parsed for f32 and f64 under catch_unwind in an optimised build and in a build with debug assertions and overflow checks; outcome must be a non-NaN non-negative value. Non-trivial: more than 19 digits.",
+        exhaustive_over={"quick": "union of value families (both formats) + LONG(10^4, 10^5) x 5 shapes x 15 exponents, 5 configurations x {release, debug-assertions+overflow-checks}",
+                         "thorough": "same with SHORT(5), every binade DEEP, 10^6-digit shapes"},
+        assumptions=["a process abort (not an unwinding panic) kills the engine and is reported as a machinery failure naming the configuration, not as a verdict"]),
+    "C05": dict(
+        custom="c05", cfgs=ALL8, hard=True,
+        rule="the same families in the same order are parsed in all eight separately compiled feature configurations; a 64-bit digest of (input, f32 bits, f64 bits) per job must agree with the default build; a differing job is re-run in dump mode and the first differing inputs are reported. Metamorphic: no expected values.",
+        exhaustive_over={"quick": "all value families of C01/C02 (both formats) + RESPELL, 8 configurations", "thorough": "same at thorough bounds"},
+        assumptions=["equal digests are taken as equal outputs (64-bit hash per job)"]),
+    "C06": dict(
+        sub="c06", cfgs=FIVE, hard=True, rule=VALUE_RULE + " Only inputs with at least 20 significant digits are judged here; the deciding digit is placed on both sides of the 19th/20th digit, every 19-digit chunk edge, MAX_DIGITS-3..+3 and far beyond, in integer-only, fraction-only, scientific and split spellings (incl. long integer + short fraction).",
+        exhaustive_over={"quick": "BOUNDARY-DEEP full V(H) on named pairs + every 32nd (f64) / 8th (f32) binade; far digits on every 4th binade x patterns; thresholds; SEAM/HARD truncated spellings; EXTREME long shapes",
+                         "thorough": "DEEP on every binade, far digit out to 10^6"},
+        assumptions=ASSUME_EXACT),
+    "C07": dict(
+        sub="c07", cfgs=FIVE, rule=VALUE_RULE + " Only inputs whose exact value is below 2^-1021 / 2^-125, at or above 2^1023 / 2^127, zero, or whose exponent argument exceeds 400 in magnitude are judged here.",
+        exhaustive_over={"quick": "8 IEEE thresholds per format at every prefix length (truncated and +1) with compensating zeros up to 5000; ~2400 exponent classes x 30 digit shapes incl. i32::MIN/MAX; SHORT(3) and SEAM in the end windows; 13 end binades x patterns; 1/16 of the f32 subnormal and top binade midpoints",
+                         "thorough": "compensation up to 10^5, SHORT(4), complete f32 subnormal and top binades"},
+        assumptions=ASSUME_EXACT),
+    "C09": dict(
+        sub="c09", cfgs=FIVE, rule="value-sorted chains are generated (order re-asserted exactly by the harness) and parsed; bits of adjacent elements must be non-decreasing. No expected values. Non-trivial: more than 15 digits or |exponent| > 22.",
+        exhaustive_over={"quick": "(1) sorted SEAM significand list with 4 in-between truncated elements per step at every q in [-365,330]; (2) same digits across consecutive exponents; (3) runs of 4 consecutive floats x patterns x every binade with below/at/above-midpoint elements; (4) far-digit chains d=0..9",
+                         "thorough": "512 extra patterns"},
+        assumptions=["chain order is established by exact decimal comparison in the harness; a generator error is a machinery failure"]),
+    "C10": dict(
+        sub="c10", cfgs=FIVE, rule="for every base value all spellings (every split position with compensating exponent, leading fraction zeros, 1..40 appended fraction zeros, integer zeros moved into the exponent) are parsed; all must give the bits of the first spelling. Metamorphic: no expected values.",
+        exhaustive_over={"quick": "bases: all <=3-digit strings at 60 exponents, SEAM significands at every 5th q (seed-rotated), truncated 39-digit bases, midpoints/exact values of the named pairs (up to 770 digits); splits complete",
+                         "thorough": "<=4-digit strings"},
+        assumptions=["equality of the spelled values is re-asserted exactly by the harness"]),
+    "C15": dict(
+        sub="c15", cfgs=["D", "C", "N", "NC", "A"], hard=True, post=_c15_post,
+        rule="a counting global allocator with a thread-local counter is read before and after every parse_float call; the delta must be 0 in every configuration without `alloc`. Monitor validity: the `alloc` configuration must be seen allocating. Non-trivial: more than 19 digits (big-integer or truncated path).",
+        exhaustive_over={"quick": "SHORT(3), SEAM, EXTREME, BOUNDARY-LIGHT (every 2nd binade), DEEP, thresholds, LONG(10^5), HARD(q): every path class incl. pow >= 135 / long_mul inputs", "thorough": "every binade"},
+        assumptions=["the counter sees every allocation made through the global allocator on the calling thread"]),
+})
+
 NOT_APPLICABLE = {}
 
 _VALUE_NOTE = ("trusted: the exact oracle in harness/core (naturals with multiply/shift/compare only), rustc, the host FPU for the crate's own fast path; "
                "bounded: f64 midpoints outside the pattern set, significands outside SEAM/HARD per exponent, digit strings beyond 10^6 are not enumerated")
 
 MANIFEST_TEXT = {
+    "C03": dict(level="Round trip decided by parsing back three renderings of every float in the stated sets; for f32 the thorough tier covers every finite value (complete), for f64 a pattern family in every binade.", design_ref="DESIGN.md 4/C03", note="renderings from core::fmt and the harness' exact expansion; f64 values outside the pattern family are not enumerated", technique="bounded-exhaustive enumeration of floats x renderings on the real code; complete for f32 in thorough tier"),
+    "C04": dict(level="Every family member is executed in optimised and debug-assertion builds of five configurations under catch_unwind; absence of panics is a coverage statement over inputs that maximise big-integer size and hit every exponent-arithmetic site.", design_ref="DESIGN.md 4/C04", note="aborts are machinery failures; digit strings above 10^6 not explored", technique="bounded-exhaustive input enumeration x configurations x build profiles with a panic monitor"),
+    "C05": dict(level="Differential exploration: identical, ordered families through eight separately compiled configurations, digests compared. Detects any configuration-dependent result within the families.", design_ref="DESIGN.md 4/C05", note="64-bit digests; families as C01/C02/C10", technique="bounded-exhaustive differential enumeration across 8 feature configurations"),
+    "C06": dict(level="The property's three clauses (far digit breaks a tie upward, 9-tail stays below, trailing zeros keep the tie) are enumerated with the deciding digit at every offset relative to the three truncation mechanisms, in every spelling, judged by construction and by the exact oracle.", design_ref="DESIGN.md 4/C06", note=_VALUE_NOTE, technique="bounded-exhaustive enumeration of deciding-digit offsets x spellings on the real code, exact oracle"),
+    "C07": dict(level="All IEEE thresholds approached at every digit count, with compensated spellings and the whole i32 exponent range by class; complete for the f32 subnormal/top binades in thorough.", design_ref="DESIGN.md 4/C07", note=_VALUE_NOTE, technique="bounded-exhaustive enumeration around IEEE thresholds and exponent classes, exact oracle"),
+    "C09": dict(level="Order preservation checked on every adjacent pair of generated chains that cross each algorithm switch-over; metamorphic oracle.", design_ref="DESIGN.md 4/C09", note="pairs outside the chains are not compared; transitivity gives non-adjacent pairs within a chain", technique="bounded-exhaustive chain enumeration, adjacent-pair order oracle"),
+    "C10": dict(level="Every re-spelling of each base value must agree; splits are complete for each base.", design_ref="DESIGN.md 4/C10", note="base set is a family, not all inputs", technique="bounded-exhaustive enumeration of spellings per base, equality oracle"),
+    "C15": dict(level="Zero allocations observed on every explored call in the four non-alloc configurations, with a validity run showing the monitor sees allocations in the alloc build.", design_ref="DESIGN.md 4/C15", note="allocation counted on the calling thread only (the crate spawns no threads)", technique="bounded-exhaustive input enumeration with a counting-allocator monitor"),
     "C01": dict(
         level="Every member of the stated finite input families (all <=4/5-digit inputs at every exponent, every seam window at every decimal exponent, ~190 mantissa patterns in each of the 2047 f64 binades with the full near-midpoint variant set, IEEE thresholds at every prefix length, number-theoretic hard cases) is parsed by the real code in five feature configurations and judged by an exact rounding-interval oracle. This is a coverage statement for those families, not a proof for all inputs; it is the right level because wrong rounding can only hide at seams that a systematic enumerator can reach and a unit test cannot.",
         design_ref="DESIGN.md 3.3, 3.4, 4/C01", note=_VALUE_NOTE,
